@@ -1,6 +1,8 @@
 (* drv_C04.ml — driver: runs the extracted C04 model (unscented Kalman prediction /
    correction, both constructors) and the Kalman steps (spec side) on the case
-   file given on stdin.  The square-root / eigenvector oracles of the model are
+   file given on stdin.  A case is a sequence of calls on one object (operands of call t
+   carry the suffix _s<t>): the prediction model is applied to the operands of each call,
+   the correction model additionally threads the state the object keeps for getLikelihood.  The square-root / eigenvector oracles of the model are
    the Jacobi eigen-iteration also used by drv_C03.ml; contract residuals are printed. *)
 
 (* ---- symmetric Jacobi: returns (eigenvalues, eigenvectors as columns) ---- *)
@@ -95,6 +97,9 @@ let comps_of (means : float array array) (covs : float array array) (n : int) =
 let flist (m : float array array) : Obj.t list = Array.to_list (Array.map (fun r -> ob r.(0)) m)
 let out_flist name (l : Obj.t list) = Caseio.out_mat_shape name 1 (List.length l) [| Array.of_list (List.map fl l) |]
 
+let sfx name t = Printf.sprintf "%s_s%d" name t
+let geti (c : Caseio.case) name d = if Caseio.has c name then Caseio.get_int c name else d
+
 let () =
   let cases = Caseio.read_records "case" stdin in
   List.iter
@@ -102,57 +107,64 @@ let () =
       sqrt_residual := 0.0; eig_residual := 0.0; oracle_calls := 0;
       let params = Caseio.get_mat c "params" in
       let alpha = ob params.(0).(0) and beta = ob params.(0).(1) and kappa = ob params.(0).(2) in
-      let n = Caseio.get_int c "n" and q = Caseio.get_int c "q" in
       let generic = Caseio.get_int c "generic" <> 0 in
-      let means = Caseio.get_mat c "means" and covs = Caseio.get_mat c "covs" in
-      let cs = comps_of means covs n in
-      let ws = flist (Caseio.get_mat c "weights") in
+      let circ = geti c "circ" 0 in
+      let nsteps = Caseio.get_int c "nsteps" in
       Caseio.out_begin c.id;
-      (match c.kind with
-       | "predict" ->
-           let a = lmx_of_mat (Caseio.get_mat c "A") and qm = lmx_of_mat (Caseio.get_mat c "Q") in
-           let sp = Caseio.get_int c "skip_pred" <> 0 and ss = Caseio.get_int c "skip_state" <> 0 in
-           let exo = if Caseio.has c "exo_c" then Some (lmx_of_mat (Caseio.get_mat c "exo_c")) else None in
-           let (res, w) = c04_predict fops sq_oracle eg_oracle (nat_of_int n) (nat_of_int q) generic alpha beta kappa sp ss a qm exo cs ws in
-           Caseio.out_int "components" (List.length res);
-           List.iteri (fun i (mean, cov) ->
-               Caseio.out_mat_shape (Printf.sprintf "mean%d" i) n 1 (mat_of_lmx mean);
-               Caseio.out_mat_shape (Printf.sprintf "cov%d" i) n n (mat_of_lmx cov)) res;
-           out_flist "weights" w;
-           (* the Kalman prediction on the same inputs *)
-           let f = lmx_of_mat (Caseio.get_mat c "F") in
-           let qeff = if generic then c04_congr fops (nat_of_int n) (nat_of_int q) (lmx_of_mat (Caseio.get_mat c "B")) qm else qm in
-           List.iteri (fun i (mean, cov) ->
-               Caseio.out_mat_shape (Printf.sprintf "kf_mean%d" i) n 1 (mat_of_lmx mean);
-               Caseio.out_mat_shape (Printf.sprintf "kf_cov%d" i) n n (mat_of_lmx cov))
-             (c04_kf_predict fops (nat_of_int n) f qeff exo cs)
-       | _ ->
-           let m = Caseio.get_int c "m" in
-           let a = lmx_of_mat (Caseio.get_mat c "A") and r = lmx_of_mat (Caseio.get_mat c "R") in
-           let skip = Caseio.get_int c "skip" <> 0 and fail = Caseio.get_int c "fail" <> 0 in
-           let ymat = lmx_of_mat (Caseio.get_mat c "y") in
-           let y = if Caseio.get_int c "have_y" <> 0 then Some ymat else None in
-           let old_cs = comps_of (Caseio.get_mat c "old_means") (Caseio.get_mat c "old_covs") n in
-           let old_ws = flist (Caseio.get_mat c "old_weights") in
-           let ((res, w), lik) =
-             let mnoise = if Caseio.has c "mnoise" then Caseio.get_int c "mnoise" else 0 in
-             let warm = if Caseio.has c "warm" && Caseio.get_int c "warm" <> 0 then Some (lmx_of_mat (Caseio.get_mat c "y0")) else None in
-             c04_correct fops sq_oracle eg_oracle (nat_of_int n) (nat_of_int q) (nat_of_int m) generic alpha beta kappa skip a r y fail warm (nat_of_int mnoise) cs ws old_cs old_ws in
-           Caseio.out_int "components" (List.length res);
-           List.iteri (fun i (mean, cov) ->
-               Caseio.out_mat_shape (Printf.sprintf "mean%d" i) n 1 (mat_of_lmx mean);
-               Caseio.out_mat_shape (Printf.sprintf "cov%d" i) n n (mat_of_lmx cov)) res;
-           out_flist "weights" w;
-           (match lik with
-            | None -> Caseio.out_int "lik_valid" 0
-            | Some l -> Caseio.out_int "lik_valid" 1; out_flist "lik" l);
-           let h = lmx_of_mat (Caseio.get_mat c "H") in
-           let reff = if generic then c04_congr fops (nat_of_int m) (nat_of_int q) (lmx_of_mat (Caseio.get_mat c "D")) r else r in
-           List.iteri (fun i ((mean, cov), l) ->
-               Caseio.out_mat_shape (Printf.sprintf "kf_mean%d" i) n 1 (mat_of_lmx mean);
-               Caseio.out_mat_shape (Printf.sprintf "kf_cov%d" i) n n (mat_of_lmx cov);
-               Caseio.out_num (Printf.sprintf "kf_lik%d" i) (fl l))
-             (c04_kf_correct fops (nat_of_int n) (nat_of_int m) h reff ymat cs));
+      (* the state kept by an UKFCorrection object between calls: innovations, innovation covariances *)
+      let st = ref ([], []) in
+      for t = 0 to nsteps - 1 do
+        let n = geti c (sfx "n" t) (Caseio.get_int c "n") and q = geti c (sfx "q" t) (Caseio.get_int c "q") in
+        let means = Caseio.get_mat c (sfx "means" t) and covs = Caseio.get_mat c (sfx "covs" t) in
+        let cs = comps_of means covs n in
+        let ws = flist (Caseio.get_mat c (sfx "weights" t)) in
+        let out_comps pre res =
+          List.iteri (fun i (mean, cov) ->
+              Caseio.out_mat_shape (sfx (Printf.sprintf "%smean%d" pre i) t) n 1 (mat_of_lmx mean);
+              Caseio.out_mat_shape (sfx (Printf.sprintf "%scov%d" pre i) t) n n (mat_of_lmx cov)) res in
+        (match c.kind with
+         | "predict" ->
+             let a = lmx_of_mat (Caseio.get_mat c (sfx "A" t)) and qm = lmx_of_mat (Caseio.get_mat c (sfx "Q" t)) in
+             let sp = Caseio.get_int c (sfx "skip_pred" t) <> 0 and ss = Caseio.get_int c (sfx "skip_state" t) <> 0 in
+             let exo = if Caseio.has c (sfx "exo_c" t) then Some (lmx_of_mat (Caseio.get_mat c (sfx "exo_c" t))) else None in
+             let (res, w) = c04_predict fops sq_oracle eg_oracle (nat_of_int n) (nat_of_int circ) (nat_of_int q) generic alpha beta kappa sp ss a qm exo cs ws in
+             Caseio.out_int (sfx "components" t) (List.length res);
+             out_comps "" res;
+             out_flist (sfx "weights" t) w;
+             (* the Kalman prediction on the same inputs *)
+             let f = lmx_of_mat (Caseio.get_mat c (sfx "F" t)) in
+             let qeff = if generic then c04_congr fops (nat_of_int n) (nat_of_int q) (lmx_of_mat (Caseio.get_mat c (sfx "B" t))) qm else qm in
+             out_comps "kf_" (c04_kf_predict fops (nat_of_int n) f qeff exo cs)
+         | _ ->
+             let m = Caseio.get_int c (sfx "m" t) in
+             let a = lmx_of_mat (Caseio.get_mat c (sfx "A" t)) and r = lmx_of_mat (Caseio.get_mat c (sfx "R" t)) in
+             let skip = Caseio.get_int c (sfx "skip" t) <> 0 and fail = Caseio.get_int c (sfx "fail" t) <> 0 in
+             let fail_innov = geti c (sfx "fail_innov" t) 0 <> 0 in
+             let ymat = lmx_of_mat (Caseio.get_mat c (sfx "y" t)) in
+             let y = if Caseio.get_int c (sfx "have_y" t) <> 0 then Some ymat else None in
+             let old_cs = comps_of (Caseio.get_mat c (sfx "old_means" t)) (Caseio.get_mat c (sfx "old_covs" t)) n in
+             let old_ws = flist (Caseio.get_mat c (sfx "old_weights" t)) in
+             (* correct(g, g): the output object is the input object *)
+             let (old_cs, old_ws) = if geti c (sfx "alias" t) 0 <> 0 then (cs, ws) else (old_cs, old_ws) in
+             let mnoise = geti c (sfx "mnoise" t) 0 in
+             let (((res, w), lik), st') =
+               c04_correct fops sq_oracle eg_oracle (nat_of_int n) (nat_of_int circ) (nat_of_int q) (nat_of_int m) generic alpha beta kappa skip a r y fail fail_innov
+                 (nat_of_int mnoise) cs ws old_cs old_ws !st in
+             st := st';
+             Caseio.out_int (sfx "components" t) (List.length res);
+             out_comps "" res;
+             out_flist (sfx "weights" t) w;
+             (match lik with
+              | None -> Caseio.out_int (sfx "lik_valid" t) 0
+              | Some l -> Caseio.out_int (sfx "lik_valid" t) 1; out_flist (sfx "lik" t) l);
+             let h = lmx_of_mat (Caseio.get_mat c (sfx "H" t)) in
+             let reff = if generic then c04_congr fops (nat_of_int m) (nat_of_int q) (lmx_of_mat (Caseio.get_mat c (sfx "D" t))) r else r in
+             List.iteri (fun i ((mean, cov), l) ->
+                 Caseio.out_mat_shape (sfx (Printf.sprintf "kf_mean%d" i) t) n 1 (mat_of_lmx mean);
+                 Caseio.out_mat_shape (sfx (Printf.sprintf "kf_cov%d" i) t) n n (mat_of_lmx cov);
+                 Caseio.out_num (sfx (Printf.sprintf "kf_lik%d" i) t) (fl l))
+               (c04_kf_correct fops (nat_of_int n) (nat_of_int m) h reff ymat cs))
+      done;
       Caseio.out_num "sqrt_residual" !sqrt_residual;
       Caseio.out_num "eig_residual" !eig_residual;
       Caseio.out_end ())
